@@ -132,6 +132,13 @@ class WorldGen:
             return self.inner(ty["of"])
         if ty["k"] == "list":
             of = ty["of"]
+            if self.dyn_lists and self.p_err:
+                # the dynamic API cannot fail a single list item (a resolver returns the whole list or an error)
+                saved, self.p_err = self.p_err, 0.0
+                try:
+                    return self.inner(ty)
+                finally:
+                    self.p_err = saved
             if self.dyn_lists and of["k"] != "nn" and named(of) not in LEAVES:
                 # the dynamic API cannot express a null item of object/abstract/enum/custom-scalar type
                 # (FieldValue::NULL is also the placeholder parent of objects): generate non-null items
